@@ -108,8 +108,11 @@ def judge_outevent(case):
     spelled = case['outevent'][3] if len(case['outevent']) > 3 else 'out'
     # the first formal is named like the event itself
     event = ['Ev', spelled, ret, [['Ev' if i == 0 else f'a{i}', ['T'], d] for i, d in enumerate(formals)]]
-    doc = [['extern', 'T', 'int'], ['interface', 'I', [['enum', 'E', ['A']]],
-                                    [['Before', 'in', ['void'], []], event]]]
+    before = ['Before', 'in', ['void'], []]
+    if len(case['outevent']) > 4 and case['outevent'][4]:
+        # 'twin': the preceding IN event has exactly the signature of the out event
+        before = ['Before', 'in', ret, [list(f) for f in event[3]]]
+    doc = [['extern', 'T', 'int'], ['interface', 'I', [['enum', 'E', ['A']]], [before, event]]]
     if wrap:
         doc = [['ns', ['N', 'M'], doc]]
     verdict, detail = classify(D.to_json(doc))
@@ -314,7 +317,8 @@ def _work(job):
                 for formals in itertools.product(('in', 'out', 'inout'), repeat=n):
                     for wrap, spelled in ((False, 'out'), (True, 'out'), (False, 'Out'), (False, 'OUT'), (True, 'oUt'),
                                           (False, ' out'), (False, 'out ')):
-                        case = {'outevent': [ret, list(formals), wrap, spelled]}
+                      for twin in (False, True):
+                        case = {'outevent': [ret, list(formals), wrap, spelled, twin]}
                         res = judge(case)
                         part.evaluations += 1
                         part.states += 1
